@@ -515,3 +515,89 @@ func sized(fc uint8, size int) spec.Req {
 	}
 	return r
 }
+
+// ---------------------------------------------------------------------------
+// the same property on a client that has been in use for a long time: one Client value makes N calls (what a polling program does for
+// days); every call gets a complete, correct reply in some fragmentation and must return it - the 1st like the 256th, the 4000th and
+// the 65537th
+
+type agedCase struct {
+	Kind string `json:"kind"`
+	// N calls are made; call i uses Cases[i % len(Cases)]
+	N     int        `json:"n"`
+	Cases []fragCase `json:"cases"`
+}
+
+func runAged(c agedCase) harness.Result {
+	if len(c.Cases) == 0 {
+		return harness.Result{}
+	}
+	sess, err := cli.NewSession(c.Kind, 0, false)
+	if err != nil {
+		return harness.Fail("harness: %v", err)
+	}
+	defer sess.Close()
+	preps := make([]prepared, len(c.Cases))
+	for i, fc := range c.Cases {
+		fc.Kind = c.Kind
+		c.Cases[i] = fc
+		p, err := prepare(fc)
+		if err != nil {
+			return harness.Fail("harness: %v", err)
+		}
+		preps[i] = p
+	}
+	emptyReads, dataReads := 0, 0
+	for i := 0; i < c.N; i++ {
+		k := i % len(c.Cases)
+		fc, p := c.Cases[k], preps[k]
+		o := sess.Call(fc.Req, p.sc.Stream, p.sc.Events)
+		for _, r := range o.Reads {
+			if r.N > 0 {
+				dataReads++
+			} else {
+				emptyReads++
+			}
+		}
+		if r := judge(fc, p, o); r.Err != nil {
+			return harness.Fail("call #%d on one long-lived %s client (%d empty and %d data reads so far): %v; this call: %+v", i+1, c.Kind, emptyReads, dataReads, r.Err, fc)
+		}
+	}
+	labels := []string{"kind:" + c.Kind, fmt.Sprintf("calls-on-one-client:%d", c.N)}
+	if emptyReads > dataReads+4000 {
+		labels = append(labels, "empty-reads-outnumber-data-reads-by>4000")
+	}
+	return harness.Result{NonTrivial: c.N >= 300, Labels: labels, Weight: int64(c.N)}
+}
+
+func genAged(t *rapid.T, sizes []int) agedCase {
+	c := agedCase{Kind: rapid.SampledFrom([]string{cli.TCP, cli.RTUNet}).Draw(t, "kind"), N: rapid.SampledFrom(sizes).Draw(t, "n")}
+	k := rapid.IntRange(3, 24).Draw(t, "ncases")
+	manyGaps := rapid.Bool().Draw(t, "many_gaps")
+	for len(c.Cases) < k {
+		fc := genFrag(t, []string{c.Kind})
+		fc.Follow, fc.SlowLastMs, fc.Prior, fc.PriorRepeat, fc.Address, fc.EOF = false, 0, "", 0, "", 0
+		if manyGaps {
+			for i := range fc.Gaps {
+				fc.Gaps[i] = 2 + i%2
+			}
+		}
+		p, err := prepare(fc)
+		if err != nil || (p.affected && p.predicted.Timeout) {
+			continue // (cases that end by the read timeout under a listed finding would make the run slow)
+		}
+		c.Cases = append(c.Cases, fc)
+	}
+	return c
+}
+
+var chkAged = harness.Define("fragmented-reply-long-lived-client", func(t *rapid.T) agedCase { return genAged(t, []int{300, 1100, 4200, 13000}) }, runAged)
+
+func TestLongLivedClient(t *testing.T) {
+	chkAged.Rapid(t, harness.Pick(6, 40))
+	if harness.Thorough() {
+		// past the wrap of a 16-bit counter
+		big := harness.Define("fragmented-reply-long-lived-client", func(t *rapid.T) agedCase { return genAged(t, []int{66000, 140000}) }, runAged)
+		big.Rapid(t, 2)
+	}
+}
